@@ -1260,6 +1260,15 @@ static PhysText generateModel(Rng& rng, ModelInfo& mi) {
         if (rng.chance(0.5)) p.t("MAXVALUE\n 'PERMX'").v(LU(1e-12, 1e-11), "Permeability").t(box()).t("/\nMINVALUE\n 'PERMZ'").v(LU(1e-16, 1e-15), "Permeability").t(box()).t("/\n");
         if (rng.chance(0.3)) p.t("COPY\n 'PERMX' 'PERMY' /\n/\n");
     }
+    // OPERATE: the constants of ADDX / MAXLIM / MINLIM (first parameter) and of MULTA (second parameter) carry the unit of the target
+    if (rng.chance(0.4)) {
+        feat("OPERATE");
+        auto bx = [&]() { std::string b = box(); return b.substr(0, b.find('/')); };
+        p.t("OPERATE\n 'PERMZ'" + bx() + "'ADDX' 'PERMX'").v(LU(1e-15, 1e-13), "Permeability").t(" /\n");
+        p.t(" 'PERMY'" + bx() + (rng.chance(0.5) ? "'MAXLIM'" : "'MINLIM'") + " 'PERMY'").v(LU(1e-13, 1e-12), "Permeability").t(" /\n");
+        if (rng.chance(0.5)) p.t(" 'PERMX'" + bx() + "'MULTA' 'PERMX'").v(U(0.5, 2.0), "1").v(LU(1e-16, 1e-15), "Permeability").t(" /\n");
+        p.t("/\n");
+    }
     // ---------------------------------------------------------------- PROPS
     p.t("PROPS\n");
     p.t("DENSITY\n"); for (int t = 0; t < ntpvt; ++t) { vd(U(700, 900), "Density", 0.2); vd(U(1000, 1100), "Density", 0.2); vd(U(0.7, 1.2), "Density", 0.2); p.t(" /\n"); }
@@ -1366,6 +1375,16 @@ static PhysText generateModel(Rng& rng, ModelInfo& mi) {
         if (vapoil) cellArray("RV", n, 1e-5, 1e-4, "LiquidSurfaceVolume/GasSurfaceVolume");
         if (thermalTables) { cellArray("TEMPI", n, 300, 400, "Temperature"); feat("TEMPI"); }
         if (rng.chance(0.5)) { p.t("EQUALS\n 'PRESSURE'").v(U(1.5e7, 3.5e7), "Pressure").t(box()).t("/\nADD\n 'PRESSURE'").v(U(1e5, 1e6), "Pressure").t(box()).t("/\n"); if (disgas) p.t("MULTIPLY\n 'RS'").v(U(0.8, 1.2), "1").t(box()).t("/\n"); feat("SOLUTION-OPS"); }
+        // OPERATE on an array whose unit differs between the unit systems (permeabilities are mD everywhere: a constant left in deck
+        // units gives the same wrong SI value in all four systems and the comparison across systems cannot see it)
+        if (rng.chance(0.4)) {
+            feat("OPERATE-PRESSURE");
+            auto bx = [&]() { std::string b = box(); return b.substr(0, b.find('/')); };
+            p.t("OPERATE\n 'PRESSURE'" + bx() + "'ADDX' 'PRESSURE'").v(U(1e5, 2e6), "Pressure").t(" /\n");
+            p.t(" 'PRESSURE'" + bx() + (rng.chance(0.5) ? "'MAXLIM'" : "'MINLIM'") + " 'PRESSURE'").v(U(2e7, 3e7), "Pressure").t(" /\n");
+            if (rng.chance(0.5)) p.t(" 'PRESSURE'" + bx() + "'MULTA' 'PRESSURE'").v(U(0.9, 1.1), "1").v(U(1e5, 1e6), "Pressure").t(" /\n");
+            p.t("/\n");
+        }
         if (thermalTables && rng.chance(0.4)) { p.t("EQUALS\n 'TEMPI'").v(U(300, 400), "Temperature").t(box()).t("/\n"); feat("EQUALS-TEMPI"); }
         // a temperature *difference* added to a temperature: 10 K = 10 degC = 18 degF = 18 degR
         if (thermalTables && rng.chance(0.3)) { p.t("ADD\n 'TEMPI'").v(U(5, 30), "AbsoluteTemperature").t(box()).t("/\n"); feat("ADD-TEMPI"); mi.addTempi = true; }
